@@ -191,6 +191,9 @@ def rule_R3b(text, log):
     return text
 
 
+PARAM_PAT = r'(?:' + IDENT + r'|\(\s*' + IDENT + r'(?:\s*,\s*' + IDENT + r')*\s*\))'
+
+
 def rule_R6b(text, log):
     """O.map(|p| E)  (value position, side-effect-free closure) ==> (match O { Some(p) => Some(E), None => None })"""
     def fn(t, m, c):
